@@ -142,6 +142,11 @@ type Case struct {
 	// Block: a read at the end of the script blocks until the connection's deadline passes
 	// (what a silent peer looks like on a transport with deadlines) instead of returning EOF.
 	Block bool
+	// Custom, when set, is called instead of NewSession/ReceiveSession with the default
+	// negotiator (other front-ends, e.g. the component handshake); Render then produces the bytes
+	// of the script items.
+	Custom func(ctx context.Context, c net.Conn) (*xmpp.Session, error)
+	Render func(it Item, pos int) []byte
 	// Peer, when set, supplies items once Script is exhausted (nil, false = end of input);
 	// the items it supplies are appended to the script of the result.
 	Peer func(v *View) (Item, bool)
@@ -461,7 +466,12 @@ func (c conn) Read(p []byte) (int, error) {
 	}
 	it := r.script[r.pos]
 	r.add(Event{Kind: "R", Res: "got", Item: r.pos, St: st})
-	b := render(it, r.pos, r.server, r.s2s, r.cs.WS)
+	var b []byte
+	if r.cs.Render != nil {
+		b = r.cs.Render(it, r.pos)
+	} else {
+		b = render(it, r.pos, r.server, r.s2s, r.cs.WS)
+	}
 	r.pos++
 	n := copy(p, b)
 	r.rest = append([]byte(nil), b[n:]...)
@@ -781,7 +791,9 @@ func Exec(cs Case) Result {
 		if r.s2s {
 			origin = jid.MustParse("example.org")
 		}
-		if r.server {
+		if cs.Custom != nil {
+			out.s, out.err = cs.Custom(ctx, conn{r})
+		} else if r.server {
 			out.s, out.err = xmpp.ReceiveSession(ctx, conn{r}, xmpp.SessionState(cs.St0), neg)
 		} else {
 			out.s, out.err = xmpp.NewSession(ctx, location, origin, conn{r}, xmpp.SessionState(cs.St0), neg)
